@@ -51,6 +51,16 @@ func init() {
 		rest, _ := ioutil.ReadAll(rd)
 		return fmt.Sprintf("ok %s %s %s", showTag(tag), tokBytes(tag.Payload()), tokBytes(rest))
 	})
+	register("c11.modts", func(a []string) string {
+		t, ts, p := uint8(numTok(a[0])), uint32(numTok(a[1])), bytesTok(a[2])
+		tag := httpflv.Tag{Header: httpflv.TagHeader{Type: t, DataSize: uint32(len(p)), Timestamp: ts}, Raw: httpflv.PackHttpflvTag(t, ts, p)}
+		out := []string{showTag(tag)}
+		for _, x := range strings.Split(a[3], ",") {
+			tag.ModTagTimestamp(uint32(numTok(x)))
+			out = append(out, showTag(tag))
+		}
+		return strings.Join(out, ",")
+	})
 	register("c11.file", func(a []string) string {
 		tags := parseTags(a[0])
 		f, err := ioutil.TempFile("", "lalprobe-flv-")
